@@ -391,3 +391,109 @@ end StarsimModel.Gen
 '''
     facts = dict(beta=b, ownership=[dict(func=f, par=p, mutations=m) for f, p, m in own])
     return body, facts
+
+
+# ---------------------------------------------------------------------------
+# round 4: SimPars.validate_demographics — the ORDER of the sim-level shortcut expansions and of the derived setting `use_aging`
+
+def _is_self_attr(e, name):
+    return isinstance(e, ast.Attribute) and isinstance(e.value, ast.Name) and e.value.id == 'self' and e.attr == name
+
+
+def _appends(stmts, clsname, rate=None):
+    """ does the block contain `self.demographics += ss.<clsname>(...)` (directly or via a local), with `<rate>=self.<rate>` if asked """
+    env = {}
+    for st in stmts:
+        for n in ast.walk(st):
+            if isinstance(n, ast.Assign) and len(n.targets) == 1 and isinstance(n.targets[0], ast.Name):
+                env[n.targets[0].id] = n.value
+    for st in stmts:
+        for n in ast.walk(st):
+            if isinstance(n, ast.AugAssign) and isinstance(n.op, ast.Add) and _is_self_attr(n.target, 'demographics'):
+                v = env.get(n.value.id) if isinstance(n.value, ast.Name) else n.value
+                if isinstance(v, ast.Call) and unparse(v.func) == f'ss.{clsname}':
+                    if rate is None:
+                        if not v.args and not v.keywords: return True
+                    else:
+                        if any(k.arg == rate and _is_self_attr(k.value, rate) for k in v.keywords) and len(v.keywords) == 1 and not v.args: return True
+    return False
+
+
+def extract_validate_demographics(src):
+    rel = 'starsim/parameters.py'
+    fn = src.func(rel, 'validate_demographics', 'SimPars')
+    steps = []
+    valid_name = None
+    for st in fn.body:
+        if isinstance(st, ast.Expr) and isinstance(st.value, ast.Constant): continue
+        if isinstance(st, ast.Return) and st.value is None: continue
+        txt = unparse(st)
+        # valid = isinstance(self.demographics, ss.ndict) and not len(self.demographics)
+        if isinstance(st, ast.Assign) and len(st.targets) == 1 and isinstance(st.targets[0], ast.Name):
+            v = unparse(st.value).replace(' ', '')
+            if v in ('isinstance(self.demographics,ss.ndict)and(notlen(self.demographics))', 'isinstance(self.demographics,ss.ndict)andnotlen(self.demographics)',
+                     'isinstance(self.demographics,ss.ndict)andlen(self.demographics)==0'):
+                valid_name = st.targets[0].id; steps.append('.computeValid'); continue
+            raise ExtractError(f'validate_demographics: unsupported assignment `{txt[:70]}`')
+        if isinstance(st, ast.If) and not st.orelse:
+            t = unparse(st.test).replace(' ', '')
+            if t in ('self.demographics==True', 'self.demographicsisTrue'):
+                # demographics = autolist; += Births() if birth_rate is None; += Deaths() if death_rate is None
+                resets = any(isinstance(n, ast.Assign) and any(_is_self_attr(x, 'demographics') for x in n.targets) for n in st.body)
+                inner = [s for s in st.body if isinstance(s, ast.If)]
+                okb = any(unparse(s.test).replace(' ', '') == 'self.birth_rateisNone' and _appends(s.body, 'Births') and not s.orelse for s in inner)
+                okd = any(unparse(s.test).replace(' ', '') == 'self.death_rateisNone' and _appends(s.body, 'Deaths') and not s.orelse for s in inner)
+                if not (resets and okb and okd and len(inner) == 2 and len(st.body) == 3):
+                    raise ExtractError('validate_demographics: the `demographics=True` shortcut changed shape')
+                steps.append('.trueShortcut'); continue
+            for rate, cls, tag in (('birth_rate', 'Births', '.birthShortcut'), ('death_rate', 'Deaths', '.deathShortcut')):
+                if t == f'self.{rate}isnotNone':
+                    guards = [s for s in st.body if isinstance(s, ast.If)]
+                    okg = (len(guards) == 1 and valid_name is not None and unparse(guards[0].test).replace(' ', '') == f'not{valid_name}'
+                           and any(isinstance(n, ast.Raise) and 'ValueError' in unparse(n) for n in ast.walk(guards[0])) and not guards[0].orelse)
+                    before_append = st.body.index(guards[0]) if guards else -1
+                    if not okg or not _appends(st.body[before_append + 1:], cls, rate):
+                        raise ExtractError(f'validate_demographics: the `{rate}` shortcut changed shape')
+                    steps.append(tag); break
+            else:
+                if t == 'self.use_agingisNone':
+                    if len(st.body) != 1 or not isinstance(st.body[0], ast.Assign) or not _is_self_attr(st.body[0].targets[0], 'use_aging'):
+                        raise ExtractError('validate_demographics: the use_aging default changed shape')
+                    v = unparse(st.body[0].value).replace(' ', '')
+                    if v not in ('Trueifself.demographicselseFalse', 'bool(self.demographics)', 'len(self.demographics)>0', 'bool(len(self.demographics))'):
+                        raise ExtractError(f'validate_demographics: use_aging is derived from `{v}`')
+                    steps.append('.deriveAging')
+                else:
+                    raise ExtractError(f'validate_demographics: unsupported statement `{txt[:70]}`')
+            continue
+        raise ExtractError(f'validate_demographics: unsupported statement `{txt[:70]}`')
+    # validate_modules: validate_demographics runs before the lists are converted
+    vm = src.func(rel, 'validate_modules', 'SimPars')
+    calls = [unparse(n.func) for st in vm.body for n in ast.walk(st) if isinstance(n, ast.Call)]
+    order_ok = 'self.validate_demographics' in calls and 'self.convert_modules' in calls and calls.index('self.validate_demographics') < calls.index('self.convert_modules')
+    # defaults of the shortcut parameters in SimPars.__init__
+    init = src.func(rel, '__init__', 'SimPars')
+    defaults = {}
+    for n in ast.walk(init):
+        if isinstance(n, ast.Assign) and len(n.targets) == 1 and isinstance(n.targets[0], ast.Attribute) and isinstance(n.targets[0].value, ast.Name) and n.targets[0].value.id == 'self':
+            defaults[n.targets[0].attr] = unparse(n.value)
+    for k in ('birth_rate', 'death_rate', 'use_aging'):
+        if defaults.get(k) != 'None':
+            raise ExtractError(f'SimPars.__init__: default of {k} is {defaults.get(k)!r}, expected None')
+    return dict(steps=steps, before_convert=order_ok)
+
+
+@generator('ParsSimLevel', ['starsim/parameters.py'])
+def gen_simlevel(src):
+    d = extract_validate_demographics(src)
+    body = f'''import StarsimModel.Model.ParsSimCore
+namespace StarsimModel.Gen
+open StarsimModel.ParsSim
+
+/-- `SimPars.validate_demographics`: its statements in source order -/
+def demogSteps : List DStep := [{', '.join(d['steps'])}]
+/-- `SimPars.validate_modules` calls `validate_demographics` before `convert_modules` -/
+def demogBeforeConvert : Bool := {lb(d['before_convert'])}
+end StarsimModel.Gen
+'''
+    return body, d
